@@ -1,5 +1,6 @@
 import TV.Proofs.WorkQueueSafety
 import TV.Proofs.WorkQueueHeap
+import TV.Proofs.MonitorWQ
 /-!
 # C16 — Dequeue and SetPriority act on exactly the identified work item
 
@@ -41,5 +42,9 @@ theorem C16_setprio_waiting :
     ((s.heap.map (·.id)).Nodup) → step? s (.setPrio id p) = some s' →
     s'.heap.Perm (s.heap.map (fun x => if x.id = id then { x with prio := p } else x)) ∧ IsHeap less s'.heap := Heap.C16_setprio_waiting
 
+
+/-! ### the model passes the monitor the driver applies to the implementation -/
+theorem C16_model_passes_monitor (W L : Nat) (s : St) (h : Reach W L s) :
+    Mon.dequeuedNeverStart (MonSound.mstOf s) (Driver.WQ.obsOf s) [] = true := MonSound.dequeuedNeverStart_sound h
 
 end TV.C16
